@@ -584,10 +584,14 @@ func TestVerifC01Mid(t *testing.T) {
 	cfg.Maxdepth = 30
 	res := NewResolver(cfg)
 	res.rootServers = nil // a sub-query the table does not answer fails at once (errNoRootServers)
+	vC01KSKPool = vC01BuildPool(rand.New(rand.NewSource(seed+9)), 1500, 257)
 	for i := 0; i < n; i++ {
 		vC01MidCase(rnd, res, tr)
 	}
 }
+
+// pairs of Ed25519 seeds whose flags-257 DNSKEY RDATA share one key tag (found by search)
+var vC01KSKPool *vC01Pool
 
 func vC01MidCase(rnd *rand.Rand, r *Resolver, tr *vC01Trace) {
 	x := vC01NewWorld(rnd)
@@ -1050,9 +1054,25 @@ func vC01MidCase(rnd *rand.Rand, r *Resolver, tr *vC01Trace) {
 	if vz := x.zones[1+rnd.Intn(len(x.zones)-1)]; vz.signed && rnd.Intn(3) == 0 {
 		ak := x.attackerKey(att, vz.name, 256)
 		km := x.newMsg(vz.name, dns.TypeDNSKEY)
-		variant := []string{"genuine", "extra-key-signed-by-it", "extra-key-both-sign", "zsk-signs-only", "attacker-only"}[rnd.Intn(5)]
+		variant := []string{"genuine", "extra-key-signed-by-it", "extra-key-both-sign", "zsk-signs-only", "attacker-only", "tag-twin-of-ksk-signs", "tag-twin-of-ksk-signs"}[rnd.Intn(7)]
 		forged := false
+		vksk := vz.ksk
 		switch variant {
+		case "tag-twin-of-ksk-signs": // the zone's KSK and an attacker key with the SAME key tag; only the attacker signs
+			if len(vC01KSKPool.pairs) == 0 {
+				variant = "genuine"
+				km.Answer = x.sign(vz, vz.ksk, vz.ksk.key, vz.zsk.key)
+				break
+			}
+			pr := vC01KSKPool.pairs[rnd.Intn(len(vC01KSKPool.pairs))]
+			vksk = x.w.keyFromSeed(vz.name, 257, dns.ED25519, pr[0])
+			twin := x.w.keyFromSeed(vz.name, 257, dns.ED25519, pr[1])
+			if rnd.Intn(2) == 0 {
+				km.Answer = x.resignAll([]dns.RR{twin.key, vksk.key, vz.zsk.key}, twin, inc, exp)
+			} else {
+				km.Answer = x.resignAll([]dns.RR{vksk.key, vz.zsk.key, twin.key}, twin, inc, exp)
+			}
+			forged = true
 		case "genuine":
 			km.Answer = x.sign(vz, vz.ksk, vz.ksk.key, vz.zsk.key)
 		case "extra-key-signed-by-it":
@@ -1068,7 +1088,7 @@ func vC01MidCase(rnd *rand.Rand, r *Resolver, tr *vC01Trace) {
 			km.Answer = x.resignAll([]dns.RR{ak.key}, ak, inc, exp)
 			forged = true
 		}
-		vds := x.w.ds(vz.ksk.key, dns.SHA256)
+		vds := x.w.ds(vksk.key, dns.SHA256)
 		rk2 := vC01RankAll(x.allRR(km, resp)...)
 		rk2 = vC01RankAll(append(x.allRR(km, resp), []dns.RR{vds})...)
 		kmCoq := x.coqMsg(km, rk2)
